@@ -76,7 +76,7 @@ def rules_for(pid):
     R = {
         "C01": [
             ("O-typestate", lambda c: RO.o_typestate(
-                c.P, c.E, ("callback after terminal", "two terminals in one call", "slot refilled")), 4),
+                c.P, c.E, ("callback after terminal", "two terminals in one call", "slot refilled", "live delivery lost")), 4),
             ("O-who-may-invoke", lambda c: RO.o_who_may_invoke(c.P, c.E), 3),
             ("F-atomic-take", lambda c: RO.f_atomic_take(c.P, c.E), 3),
             ("F-no-guard-call", lambda c: RO.f_no_guard_call(c.P, c.E), 3),
@@ -96,6 +96,7 @@ def rules_for(pid):
             ("OPSEM", lambda c: ROPS.opsem_rule(c.P, c.E, c.H), 16),
             ("SRC", lambda c: ROPS.creators_rule(c.P, c.E, c.H), 7),
             ("D-compose2", lambda c: ROPS.compose_rule(c.P, c.E, c.H), 4),
+            ("H-next-forward", lambda c: ROPS.forward_rule(c.P, c.E, c.H), 8),
         ],
         "C03": [
             ("H-register-first", lambda c: RH.h_register_first(c.P, c.E, c.H), 9),
@@ -110,6 +111,7 @@ def rules_for(pid):
             ("GATE", lambda c: ROPS.gates_rule(c.P, c.E, c.H), 3),
             ("AMB", lambda c: ROPS.amb_rule(c.P, c.E, c.H), 1),
             ("SEQ-EQ", lambda c: ROPS.seq_equal_rule(c.P, c.E, c.H), 1),
+            ("H-next-forward", lambda c: ROPS.forward_rule(c.P, c.E, c.H), 8),
         ],
         "C04": [
             ("H-error", lambda c: RH.h_error(c.P, c.E, c.H), 26),
@@ -123,6 +125,7 @@ def rules_for(pid):
             ("HANDOFF", lambda c: RS.handoff_rules(c.P, c.E, c.H), 3),
             ("OPSEM", lambda c: _only(ROPS.opsem_rule(c.P, c.E, c.H), ("operators::materialize::Materialize",
                                                                       "operators::dematerialize::Dematerialize")), 2),
+            ("H-next-forward", lambda c: ROPS.forward_rule(c.P, c.E, c.H), 8),
         ],
         "C05": [
             ("O-unsub-order", lambda c: RO.o_unsub_order(c.P, c.E), 4),
@@ -187,6 +190,7 @@ def rules_for(pid):
             ("Q", lambda c: RQ.q_rules(c.P, c.E), 10),
             ("K-fresh-state", lambda c: RK.k_fresh_state(c.P, c.E, lambda root: root.startswith("operators::")
                                                         and root.split("::")[1] in SCHED_OPS), 2),
+            ("H-next-forward", lambda c: ROPS.forward_rule(c.P, c.E, c.H), 8),
         ],
         "C10": [
             ("J", lambda c: RJ.j_rules(c.P, c.E), 8),
@@ -196,6 +200,7 @@ def rules_for(pid):
             ("K-hot-state", lambda c: RX.k_hot_state(c.P, c.E, c.H), 3),
             ("X-blocking-acq", _xacq("subjects::"), 15),
             ("CLONE-SHARES", _xclone(3, "subjects::"), 3),
+            ("SUBJ", lambda c: ROPS.subjects_rule(c.P, c.E, c.H), 8),
         ],
         "C11": [
             ("D", lambda c: RJ.d_rules(c.P, c.E, c.H), 3),
@@ -213,7 +218,7 @@ def rules_for(pid):
         ],
         "C13": [
             ("P", lambda c: RJ.p_rules(c.P, c.E), 6),
-            ("J", lambda c: _only(RJ.j_rules(c.P, c.E), ("J1", "J2", "J5", "J6", "J7")), 3),
+            ("J", lambda c: _only(RJ.j_rules(c.P, c.E), ("J1", "J2", "J5", "J6", "J7", "J9")), 3),
             ("X-blocking-acq", _xacq("operators::ref_count::", "operators::replay::", "operators::publish::", "subjects::"), 15),
             ("CLONE-SHARES", _xclone(3, "operators::ref_count::", "operators::replay::", "operators::publish::"), 3),
             ("OBS-fresh", lambda c: RX.obs_fresh(c.P, c.E, c.H), 30),
